@@ -208,7 +208,7 @@ fn probe(env: &Env, probe: i64, kind: i64, slot: Option<i64>) -> String {
 ///  (5 v child)         <Provider value=Tag1(..)>
 ///  (6 g p child)       Suspend::new(async { gate g; probe p; child built after the await })
 ///  (7 fallback child)  <Suspense>
-///  (8 kind g p1 p2 p3 child)   Resource (kind 0; 2 = refetched right after creation) / OnceResource (1) whose fetcher probes before
+///  (8 kind g p1 p2 p3 child)   Resource (kind 0; 2 = refetched by its reader once loaded) / OnceResource (1) whose fetcher probes before
 ///                      (p1) and after (p2) awaiting gate g, read by `.await` in a Suspend (p3)
 ///  (9 id child)        on_cleanup logging `id`
 ///  (10 slot child)     StoredValue (slot < 100) / RwSignal (slot >= 100) allocation
@@ -262,11 +262,18 @@ fn build(p: &Sexp, env: &Env) -> AnyView {
             let (p1, p2, p3) = (p.at(3).num(), p.at(4).num(), p.at(5).num());
             let child = p.at(6).clone();
             let envf = env.clone();
+            // `sync_pre`: the fetcher of a Resource reads the context in its *synchronous* part,
+            // before it builds the future (a OnceResource has no fetcher call, only a future)
+            let sync_pre = kind != 1;
             let fetch = move || {
                 let envf = envf.clone();
                 let rx = rx.clone();
+                let pre = if sync_pre { Some(probe(&envf, p1, K_FETCH_PRE, None)) } else { None };
                 async move {
-                    let a = probe(&envf, p1, K_FETCH_PRE, None);
+                    let a = match pre {
+                        Some(a) => a,
+                        None => probe(&envf, p1, K_FETCH_PRE, None),
+                    };
                     let _ = rx.await;
                     let b = probe(&envf, p2, K_FETCH_POST, None);
                     format!("{a}{b}")
@@ -275,13 +282,14 @@ fn build(p: &Sexp, env: &Env) -> AnyView {
             let env = env.clone();
             if kind == 0 || kind == 2 {
                 let res = Resource::new(|| (), move |_| fetch());
-                if kind == 2 {
-                    // the source changes after creation: the loader task has to call the fetcher
-                    // again (its synchronous part, probe p1, then runs inside that task)
-                    res.refetch();
-                }
                 Suspend::new(async move {
                     let v = res.await;
+                    if kind == 2 {
+                        // the source changes once the first value is there: the loader task has
+                        // to call the fetcher again, and the synchronous part of that call
+                        // (probe p1) runs inside the task, whenever the executor polls it
+                        res.refetch();
+                    }
                     let s = probe(&env, p3, K_ASYNC, None);
                     (v, s, build(&child, &env))
                 })
